@@ -33,7 +33,8 @@ def cq_parse_case(dirsel, cap, decoded, outcome):
         oc = "(0, @nil lentry)"
     else:
         oc = "(0, %s)" % coq_list(umnlib.cq_lentry(e) for e in outcome["entries"])
-    return "((%s, %s), %s, %s)" % (coq_str(dirsel), coq_opt(cap, coq_str), coq_str(decoded), oc)
+    return "((%s, %s), %s, %s)" % (coq_str(dirsel), "(@None str)" if cap is None else coq_opt(cap, coq_str),
+                                   coq_str(decoded), oc)
 
 
 def gen_menu_tree(rng, dirsel, feature=None):
@@ -116,7 +117,7 @@ def dedicated(dirsel="/d"):
                     "linkfiles": lfs, "features": set(feats), "label": name})
     sc("hide-X", {".names": [B(Type="X", Path="./fred")]})
     sc("hide-dash", {".names": [B(Path="./fred", Type="-")]}, feats=["dash"])
-    sc("numb-reset", {".names": [B(Path="./b.txt", Name="Bee")]}, caps={"b.txt": B(Numb="1")}, feats=["numb-reset"])
+    sc("numb-reset", {".names": [B(Path="./b.txt", Name="zzz last by title")]}, caps={"b.txt": B(Numb="1")}, feats=["numb-reset"])
     sc("double-hide", {".names": [B(Type="X", Path="./fred"), B(Type="X", Path="./fred")]}, feats=["double-hide"])
     sc("hide-missing", {".names": [B(Type="X", Path="./no-such-file")]}, feats=["hide-missing"])
     sc("plus", {".Links": [B(Name="Cool web site", Type="h", Path="/URL:http://hostname/", Host="+", Port="+")]})
@@ -150,13 +151,7 @@ def expected_menu(sc, mode):
             bb = {"comments": [], "fields": [("Path", "./" + n)] + [kv for kv in b["fields"] if kv[0] != "Path"]}
             entries = c08gen.spec_apply(entries, base, [bb])
     for lf in sorted(sc["linkfiles"]):
-        blocks = []
-        for b in sc["linkfiles"][lf]:
-            s = c08gen.spec_entry(base, b)
-            if s["override"] and s["type"] in ("X", "-") and not any(e["selector"] == s["selector"] for e in entries):
-                continue        # nothing there to hide
-            blocks.append(b)
-        entries = c08gen.spec_apply(entries, base, blocks)
+        entries = c08gen.spec_apply(entries, base, sc["linkfiles"][lf])
     keys = [c08gen.spec_key(e) for e in entries]
     ties = len(set(keys)) != len(keys)
     return c08gen.spec_menu(c08gen.spec_order(entries), HOST, PORT, gplus), ties
@@ -259,20 +254,18 @@ def run(tier):
                 continue
             world = run_["world"]
             menu_b = run_["menu"].encode("latin-1")
-            is_menu = not run_["exc"] and not (menu_b.startswith(b"3") and b"\t\terror.host\t1\r\n" in menu_b
-                                               and menu_b.count(b"\r\n") == 1) and bool(menu_b or not world["children"])
-            menu = menu_b.decode("utf-8", "surrogateescape") if is_menu else None
+            menu = menu_b.decode("utf-8", "surrogateescape")
             names = [c["name"] for c in world["children"]]
             idx = [names.index(n) for n in run_["enum"]]
             mcases.append("(%s, (%s, %s), %s, (%s, %s), %s)" % (
                 umnlib.cq_world(world), cq_alts(run_["ignorepatt"]), umnlib.STRIP[mode], cq_natlist(idx),
-                coq_str(HOST), cq_z(PORT), coq_opt(menu, coq_str)))
+                coq_str(HOST), cq_z(PORT), coq_str(menu)))
             lcases.append(umnlib.listing_case(run_, "umn"))
             mmeta.append((sc, mode))
             chk.count((json.dumps(sc["tree"], sort_keys=True), mode), nontrivial=bool(sc["linkfiles"] or sc["caps"]))
             # oracle: the reference reading of the same files
             want, ties = expected_menu(sc, mode)
-            got = menu if menu is not None else "<no menu: %s %r>" % (run_["exc"], run_["menu"][:100])
+            got = menu
             same = (sorted(chunks(want)) == sorted(chunks(got))) if ties else (want == got)
             if not same:
                 menu_diffs += 1
